@@ -4,7 +4,11 @@ Tie: correct_ttest / approx_correct_ttest / penetrance_parameter_distance / appr
 exact_penetrance_test / score_differential_genes / _get_validity_mask on dyadic grids where binary64
 arithmetic is exact, then both routes end to end (find_markers_for_all_taxonomy_pairs; p-value mask
 route) on generated statistics files, vs coq/Model/Holm.v + Penetrance.v (tags 1101-1111), plus the
-property's own statement on every observed output."""
+property's own statement on every observed output.  welch_cases: Model/Welch.v (tags 1150-1154) - aggregate_stats,
+_calculate_tt_nu, pij_from_stats, q_score_from_pij, welch_t_test (exact and skipping) and score_differential_genes
+all computed FROM THE SUMMARY STATISTICS, scipy's t.cdf as a per-gene oracle.  boring_premises /
+boring_premise_cases: the premises of c11_boring_t_sound / c11_sound_exact_welch evaluated numerically on every
+(t, nu) that occurs and over the range of p_th; boring_huge_nu_case: where they fail (known finding)."""
 import contextlib
 import io
 import itertools
@@ -1046,6 +1050,345 @@ def e2e_cases(ctx):
         shutil.rmtree(d, ignore_errors=True)
 
 
+# ------------------------------------------------------------------ F. from the summary statistics (Model/Welch.v)
+F_INFO = np.finfo(float)
+CLIP_LO = float(F_INFO.smallest_normal)
+CLIP_HI = 1.0 - float(F_INFO.epsneg)
+BORING_NU = 'c11-boring-t-skips-gene-with-exact-p-below-threshold-at-huge-nu'
+
+
+def summary_row(X, D=4):
+    """the row of the statistics file of one leaf as exact integers: n, sum*D, sumsq*D*D, gt0, gt1, ge1."""
+    n, ng = X.shape
+    sm = [to_int(X[:, g].sum() * D, 0) for g in range(ng)]
+    sq = [to_int((X[:, g] ** 2).sum() * D * D, 0) for g in range(ng)]
+    return [int(n), sm, sq, [int((X[:, g] > 0.0).sum()) for g in range(ng)],
+            [int((X[:, g] > 1.0).sum()) for g in range(ng)], [int((X[:, g] > 1.0 - 1.0e-6).sum()) for g in range(ng)]]
+
+
+def raw_leaf_stats(X):
+    return {'n_cells': np.int64(X.shape[0]), 'sum': X.sum(axis=0), 'sumsq': (X ** 2).sum(axis=0),
+            'gt0': (X > 0.0).sum(axis=0), 'gt1': (X > 1.0).sum(axis=0), 'ge1': (X > 1.0 - 1.0e-6).sum(axis=0)}
+
+
+def rat_close(val, num, den, exact):
+    """float `val` against the model's exact rational: identical when one correctly rounded operation
+    separates them (exact), else to 1e-12 relative."""
+    ref = Fraction(num, den)
+    if not np.isfinite(val):
+        return False
+    if exact:
+        return float(ref) == float(val)
+    return abs(fr(val) - ref) <= abs(ref) * Fraction(1, 10 ** 12)
+
+
+def tnu_check(m, tt, nu, n1, n2):
+    """model tnu (wire form) against the floats of _calculate_tt_nu; returns a problem string or None."""
+    kind = m[0]
+    if kind == 2:
+        return None if (min(n1, n2) < 1 and not np.isfinite(nu)) else f'model says nu = nan (a cluster without cells), code nu = {nu!r}, n = {n1},{n2}'
+    if min(n1, n2) < 1:
+        return f'n = {n1},{n2} but the model gives a finite statistic {m}'
+    if kind == 0:
+        sgn, t2n, t2d, nun, nud = m[1:]
+        if t2d <= 0 or nud <= 0:
+            return f'model denominators not positive: {m}'
+        if not np.isfinite(tt) or (tt > 0) - (tt < 0) != sgn:
+            return f'sign of t: code {tt!r}, model {sgn}'
+        if not rat_close(tt * tt, t2n, t2d, False) and not (t2n == 0 and tt == 0):
+            return f't^2: code {tt * tt!r}, model {t2n}/{t2d}'
+    else:
+        dn, dd, nun, nud = m[1:]
+        ref = Fraction(dn, dd) / Fraction(1.0e-10)
+        if not np.isfinite(tt) or abs(fr(tt) - ref) > abs(ref) * Fraction(1, 10 ** 12):
+            return f't with denom = 1e-10: code {tt!r}, model {float(ref)!r}'
+    if not np.isfinite(nu) or (nun == 0) != (nu == 0) or not rat_close(nu, nun, nud, False):
+        return f'nu: code {nu!r}, model {nun}/{nud}'
+    return None
+
+
+def welch_cases(ctx):
+    """Model/Welch.v against the real aggregate_stats, _calculate_tt_nu, welch_t_test (exact and skipping),
+    pij_from_stats, q_score_from_pij and score_differential_genes, all fed from the SAME summary statistics
+    (values multiples of 1/4, so sums and sums of squares are exact; cluster sizes 0, 1, 2, ... incl. zero
+    variance); scipy's t.cdf enters the model as per-gene oracle values.  Also checks NUMERICALLY, on every
+    gene that occurs, the premises of c11_boring_t_sound / c11_welch_route_sound (end points and sandwich)."""
+    from cell_type_mapper.diff_exp.score_utils import aggregate_stats, pij_from_stats, q_score_from_pij
+    from cell_type_mapper.diff_exp.scores import score_differential_genes
+    from cell_type_mapper.utils.stats_utils import _calculate_tt_nu, welch_t_test, boring_t_from_p_value
+    import scipy.stats as ss
+    rng = ctx.rng
+    D = 4
+    jobs = []
+    for ci in range(ctx.n(60, 1500)):
+        st = gen_stats(rng, exact_grid=rng.random() < 0.6, marker_like=rng.random() < 0.4)
+        if rng.random() < 0.3:      # cluster sizes the marker-like generator avoids
+            k = rng.randrange(st['n_leaves'])
+            n_new = rng.choice([0, 1, 1, 1])
+            st['data'][k] = st['data'][k][:n_new, :]
+            st['sizes'][k] = n_new
+        leaves = [f'c{i}' for i in range(st['n_leaves'])]
+        raw = {c: raw_leaf_stats(st['data'][i]) for i, c in enumerate(leaves)}
+        rows = {c: summary_row(st['data'][i], D) for i, c in enumerate(leaves)}
+        # two populations: single leaves or unions of leaves (aggregate_stats)
+        order = leaves[:]
+        rng.shuffle(order)
+        cut = rng.randrange(1, len(order))
+        pop1 = order[:cut][:rng.choice([1, 1, 2])]
+        pop2 = order[cut:][:rng.choice([1, 1, 2])]
+        with quiet():
+            a1 = aggregate_stats(leaf_population=pop1, precomputed_stats=raw)
+            a2 = aggregate_stats(leaf_population=pop2, precomputed_stats=raw)
+        jobs.append({'st': st, 'pop1': pop1, 'pop2': pop2, 'a1': a1, 'a2': a2,
+                     'rows1': [rows[c] for c in pop1], 'rows2': [rows[c] for c in pop2]})
+    agg = ctx.model([(1154, [j['st']['n_genes'], j[k]]) for j in jobs for k in ('rows1', 'rows2')])
+    stage2 = []
+    for i, j in enumerate(jobs):
+        j['s1'], j['s2'] = agg[2 * i][1], agg[2 * i + 1][1]
+        stage2 += [(1150, [D, j['s1'], j['s2']]), (1151, [D, j['s1'], j['s2']])]
+    res2 = ctx.model(stage2)
+    stage3, metas = [], []
+    for i, j in enumerate(jobs):
+        st, a1, a2 = j['st'], j['a1'], j['a2']
+        ng = st['n_genes']
+        n1, n2 = int(a1['n_cells']), int(a2['n_cells'])
+        desc = {'pop1': j['pop1'], 'pop2': j['pop2'], 'n1': n1, 'n2': n2, 'D': D, 'summary1': j['s1'], 'summary2': j['s2']}
+        corr, prop = [], []
+        # -- aggregate_stats: n, and mean / var below
+        if j['s1'][0] != n1 or j['s2'][0] != n2:
+            corr.append(f'aggregate n_cells {n1},{n2} vs model {j["s1"][0]},{j["s2"][0]}')
+        r_t, r_s = res2[2 * i], res2[2 * i + 1]
+        if r_t[0] != 0 or r_s[0] != 0:
+            corr.append(f'model error {r_t[:2]} {r_s[:2]}')
+            report(ctx, desc, corr, prop, 'welch_from_stats', 'Welch.welch_gene')
+            continue
+        with quiet():
+            tt, nu = _calculate_tt_nu(mean1=a1['mean'], var1=a1['var'], n1=a1['n_cells'],
+                                      mean2=a2['mean'], var2=a2['var'], n2=a2['n_cells'])
+            cs = {'x/a': a1, 'x/b': a2}
+            pij1, pij2, fold = pij_from_stats(cluster_stats=cs, node_1='x/a', node_2='x/b')
+            q1, qd = q_score_from_pij(pij1, pij2)
+        pow2 = all(n & (n - 1) == 0 for n in (max(1, n1), max(1, n2), max(1, n1 - 1), max(1, n2 - 1)))
+        for g in range(ng):
+            pr = tnu_check(r_t[1][g], float(tt[g]), float(nu[g]), n1, n2)
+            if pr:
+                corr.append(f'gene {g}: {pr}')
+            names = ('mean1', 'mean2', 'var1', 'var2', 'pij1', 'pij2', 'q1', 'qdiff', 'fold')
+            vals = (a1['mean'][g], a2['mean'][g], a1['var'][g], a2['var'][g], pij1[g], pij2[g], q1[g], qd[g], fold[g])
+            single = (True, True, pow2, pow2, True, True, True, pow2, pow2)
+            for name, v, (num, den), one in zip(names, vals, r_s[1][g], single):
+                if den <= 0 or not rat_close(float(v), num, den, one):
+                    corr.append(f'gene {g}: {name} code {float(v)!r}, model {num}/{den}')
+        # zero variance in both clusters (n >= 2) / one-cell clusters: what the property text names
+        zero_var = [g for g in range(ng) if min(n1, n2) >= 1 and a1['var'][g] == 0 and a2['var'][g] == 0]
+        for g in zero_var:
+            if r_t[1][g][0] != 1 or r_t[1][g][3] != 0:
+                corr.append(f'gene {g}: zero variance in both clusters but the model gives {r_t[1][g]}, expected kind 1 with nu = 0')
+        ctx.dist('welch_from_stats', ('n=0' if min(n1, n2) == 0 else 'n=1' if min(n1, n2) == 1 else 'n>=2')
+                 + (',zero-variance-gene' if zero_var else '') + (',union' if len(j['pop1']) + len(j['pop2']) > 2 else ''))
+        # -- p-values, exact and skipping, with scipy's CDF as the oracle
+        p_th = rng.choice([0.01, 0.01, 0.02, 0.045, 0.001, 1.0e-5, 0.5, 1.0])
+        bt = boring_t_from_p_value(p_th)
+        with quiet():
+            cdf = ss.t.cdf(tt, df=nu)
+            _, _, p_exact = welch_t_test(mean1=a1['mean'], var1=a1['var'], n1=a1['n_cells'], mean2=a2['mean'],
+                                         var2=a2['var'], n2=a2['n_cells'], boring_t=None, big_nu=None)
+            _, _, p_skip = welch_t_test(mean1=a1['mean'], var1=a1['var'], n1=a1['n_cells'], mean2=a2['mean'],
+                                        var2=a2['var'], n2=a2['n_cells'], boring_t=bt, big_nu=None)
+        fin = [float(c) for c in cdf if np.isfinite(c)]
+        kc = max(scale_bits(fin + [CLIP_LO, CLIP_HI, p_th, 0.5]), 2)
+        H = 1 << (kc - 1)
+        cdfs = [[to_int(float(c), kc)] if np.isfinite(c) else [] for c in cdf]
+        bq = [] if bt is None else [fr(bt).numerator, fr(bt).denominator]
+        near_b = bt is not None and any(np.isfinite(t) and abs(abs(float(t)) - bt) <= 1e-9 * bt for t in tt)
+        # premises of the skipping theorems, numerically, on every gene that occurs
+        if bt is not None:
+            prem = boring_premises(ss, [float(x) for x in tt], [float(x) for x in nu], bt, p_th)
+            for pb in prem:
+                prop.append(pb)
+        th = list(rng.choice(TH_SETS))
+        exact = rng.random() < 0.3
+        n_valid = rng.choice([1, 2, 3, 30])
+        n_valid_min = rng.choice([0, 1, 2, 3, 10])
+        vgi = sorted(rng.sample(range(ng), rng.randrange(0, ng + 1))) if rng.random() < 0.4 else None
+        n_min = rng.choice([2, 2, 2, 1, 0])
+        with quiet():
+            _, v, up = score_differential_genes(
+                node_1='x/a', node_2='x/b', precomputed_stats=cs, p_th=p_th, q1_th=th[0], qdiff_th=th[2],
+                log2_fold_th=th[4], q1_min_th=th[1], qdiff_min_th=th[3], log2_fold_min_th=th[5], n_cells_min=n_min,
+                boring_t=bt, exact_penetrance=exact, n_valid=n_valid, n_valid_min=n_valid_min,
+                valid_gene_idx=None if vgi is None else np.array(vgi, dtype=np.int64))
+        S = 1 << scale_bits(th + [1.0])
+        for g in range(ng):
+            for num, den in (r_s[1][g][k] for k in (0, 1, 6, 7, 8)):
+                S = S * den // math.gcd(S, den)
+        mask = None if vgi is None else [g in vgi for g in range(ng)]
+        settings = [S, [int(fr(x) * S) for x in th], n_min, exact, n_valid, n_valid_min]
+        for b_enc, tag_p in ((bq, 'skip'), ([], 'exact')):
+            stage3.append((1153, [D, H, to_int(CLIP_LO, kc), to_int(CLIP_HI, kc), b_enc, cdfs, j['s1'], j['s2']]))
+        stage3.append((1152, [settings, [] if mask is None else [mask], D, H, to_int(CLIP_LO, kc), to_int(CLIP_HI, kc),
+                              to_int(p_th, kc), bq, cdfs, j['s1'], j['s2']]))
+        pi = {'n1': n1, 'n2': n2, 'p': [float(x) if np.isfinite(x) else 1.0 for x in p_skip], 'q1': [float(x) for x in q1],
+              'qdiff': [float(x) for x in qd], 'fold': [float(x) for x in fold],
+              'mean1': [float(x) for x in a1['mean']], 'mean2': [float(x) for x in a2['mean']]}
+        metas.append({'desc': dict(desc, p_th=p_th, boring_t=bt, thresholds=th, exact=exact, n_valid=n_valid,
+                                   n_valid_min=n_valid_min, gene_mask=mask, n_cells_min=n_min),
+                      'corr': corr, 'prop': prop, 'kc': kc, 'p_exact': [float(x) for x in p_exact],
+                      'p_skip': [float(x) for x in p_skip], 'near_b': near_b, 'v': [bool(x) for x in v],
+                      'up': [bool(x) for x in up], 'pi': pi, 'th': th, 'p_th': p_th, 'mask': mask, 'n_min': n_min})
+    res3 = ctx.model(stage3)
+    for i, m in enumerate(metas):
+        r_skip, r_exact, r_sdg = res3[3 * i: 3 * i + 3]
+        corr, prop, kc = m['corr'], m['prop'], m['kc']
+        for name, r, obs, skip in (('approximate_welch_t_test', r_skip, m['p_skip'], m['near_b']),
+                                   ('exact_welch_t_test', r_exact, m['p_exact'], False)):
+            if skip:
+                continue
+            if r[0] != 0 or [Fraction(x, 1 << kc) for x in r[1]] != [fr(x) for x in obs]:
+                corr.append(f'{name}: p-values {obs[:6]}, model {[float(Fraction(x, 1 << kc)) for x in r[1]][:6] if r[0] == 0 else r}')
+        pi, th, p_th, mask, v, up = m['pi'], m['th'], m['p_th'], m['mask'], m['v'], m['up']
+        ng = len(v)
+        small = min(pi['n1'], pi['n2']) < m['n_min']
+        skip = m['near_b']
+        if not small and not skip:
+            dec = exact_decisions(pi, th, p_th, mask or [True] * ng)
+            pass2 = [(mask[g] if mask else True) and dec[g]['p_ok'] for g in range(ng)]
+            skip = near_tie(pi, th, p_th, mask) or near_tie(pi, th, p_th, pass2)
+        if not skip and (r_sdg[0] != 0 or [bool(x) for x in r_sdg[1][0]] != v or [bool(x) for x in r_sdg[1][1]] != up):
+            corr.append(f'score_differential_genes from the statistics: validity {v} up {up}, model {r_sdg}')
+        ctx.count(('welch', json.dumps(m['desc'], sort_keys=True, default=str)), nontrivial=any(v) and not all(v) and not skip)
+        ctx.dist('sdg_from_stats', 'near-tie-skipped' if skip else ('small-cluster' if small else ('some-valid' if any(v) else 'none-valid')))
+        if len(ctx.samples) < 6 and any(v):
+            ctx.sample({'welch_from_stats': m['desc'], 'valid': v, 'up': up})
+        m['desc']['observed_valid'], m['desc']['observed_up'] = v, up
+        if prop:
+            m['desc']['class'] = 'c11-boring-premise-false-on-occurring-value'
+            ctx.violation('premise of c11_boring_t_sound false on a value that occurs: ' + '; '.join(prop[:3]), m['desc'])
+            prop = []
+        report(ctx, m['desc'], corr, prop, 'welch_from_stats', 'Welch.sdg_stats')
+
+
+PREMISES_CHECKED = {'end_points': 0, 'skipped_genes': 0}
+
+
+def boring_premises(ss, tt, nu, bt, p_th):
+    """The premises of c11_boring_t_sound (end_lo, end_hi, monotone between the end points) and of
+    c11_welch_route_sound (the exact two-sided p-value of every SKIPPED gene is >= p_th), evaluated with
+    the operations the code itself uses (2.0*cdf, 2.0*(1.0-cdf)) on every (t, nu) that occurs."""
+    out = []
+    with np.errstate(all='ignore'):
+        for t, v in zip(tt, nu):
+            if not (np.isfinite(t) and np.isfinite(v)) or v <= 0:
+                continue
+            lo_c, hi_c = float(ss.t.cdf(-bt, df=v)), float(ss.t.cdf(bt, df=v))
+            if not (np.isfinite(lo_c) and np.isfinite(hi_c)):
+                continue
+            PREMISES_CHECKED['end_points'] += 1
+            if not 2.0 * lo_c >= p_th:
+                out.append(f'end_lo: 2*t.cdf(-{bt!r}, nu={v!r}) = {2.0 * lo_c!r} < p_th = {p_th!r}')
+            if not 2.0 * (1.0 - hi_c) >= p_th:
+                out.append(f'end_hi: 2*(1-t.cdf({bt!r}, nu={v!r})) = {2.0 * (1.0 - hi_c)!r} < p_th = {p_th!r}')
+            if -bt <= t <= bt:
+                PREMISES_CHECKED['skipped_genes'] += 1
+                c = float(ss.t.cdf(t, df=v))
+                if not (lo_c <= c <= hi_c):
+                    out.append(f't_mono: t.cdf({t!r}, nu={v!r}) = {c!r} outside [{lo_c!r}, {hi_c!r}] = cdf(-+boring_t)')
+                if not (2.0 * c >= p_th and 2.0 * (1.0 - c) >= p_th):
+                    out.append(f'skipped gene t = {t!r}, nu = {v!r}: exact two-sided p {2.0 * min(c, 1.0 - c)!r} < p_th = {p_th!r}')
+    return out
+
+
+def boring_premise_cases(ctx):
+    """end_lo / end_hi over the whole range of p_th and of nu the pipeline can produce on data of the sizes
+    the harness generates and far beyond (nu up to 1e6), and the measured limit: for nu above a few million
+    the premise fails (finding C11-boring-huge-nu, boring_huge_nu_case) - recorded as a number, not assumed."""
+    from cell_type_mapper.utils.stats_utils import boring_t_from_p_value
+    import scipy.stats as ss
+    rng = ctx.rng
+    bad = []
+    limits = {}
+    p_list = [1.0e-11, 1.0e-10, 1.0e-8, 1.0e-5, 0.001, 0.005, 0.01, 0.02, 0.045] + \
+             [10 ** rng.uniform(-11, math.log10(0.0455)) for _ in range(ctx.n(20, 300))]
+    for p_th in p_list:
+        bt = boring_t_from_p_value(p_th)
+        if bt is None:
+            continue
+        nus = [0.5, 1.0, 2.0, 3.0, 10.0, 100.0, 1.0e3, 1.0e4, 1.0e5, 1.0e6] + [10 ** rng.uniform(-1, 6) for _ in range(10)]
+        bad += boring_premises(ss, [0.0, bt, -bt, 0.5 * bt] * len(nus), [v for v in nus for _ in range(4)], bt, p_th)
+        if p_th in (0.01, 0.02, 0.001):
+            lo, hi = 1.0e6, 1.0e12
+            for _ in range(60):
+                mid = math.sqrt(lo * hi)
+                if 2.0 * float(ss.t.cdf(-bt, df=mid)) >= p_th:
+                    lo = mid
+                else:
+                    hi = mid
+            limits[str(p_th)] = lo
+    ctx.extra['boring_premise_end_lo_holds_up_to_nu'] = limits
+    ctx.count(('boring-premises', len(p_list)), nontrivial=True)
+    for pb in bad[:5]:
+        ctx.violation('premise of c11_boring_t_sound false for the real boring_t / scipy CDF: ' + pb,
+                      {'class': 'c11-boring-premise-false-on-occurring-value', 'problem': pb})
+    if any(v < 1.0e6 for v in limits.values()):
+        ctx.violation('end_lo fails below nu = 1e6', {'class': 'c11-boring-premise-false-on-occurring-value', 'limits': limits})
+
+
+def boring_huge_nu_case(ctx):
+    """Finding C11-boring-huge-nu: two clusters of 1e7 cells (statistics only), one gene with |t| 2e-7 below
+    boring_t: its exact Welch p-value (Holm multiplier 1) is below p_th, so score_differential_genes with exact
+    p-values records it, but the worker's call (boring_t = boring_t_from_p_value(p_th)) gives it p = 1."""
+    from cell_type_mapper.utils.stats_utils import boring_t_from_p_value, welch_t_test
+    from cell_type_mapper.diff_exp.scores import score_differential_genes
+    for p_th in (0.01, 0.02):
+        bt = boring_t_from_p_value(p_th)
+        n = 10 ** 7
+        d = (bt - 2.0e-7) * float(np.sqrt(2.0 / n))
+        stats = {'c/a': {'n_cells': n, 'mean': np.array([8.0 + d]), 'var': np.array([1.0]), 'ge1': np.array([n])},
+                 'c/b': {'n_cells': n, 'mean': np.array([8.0]), 'var': np.array([1.0]), 'ge1': np.array([0])}}
+        kw = dict(node_1='c/a', node_2='c/b', precomputed_stats=stats, p_th=p_th, q1_th=0.5, qdiff_th=0.7,
+                  log2_fold_th=0.001, q1_min_th=0.1, qdiff_min_th=0.1, log2_fold_min_th=0.0005, n_cells_min=2,
+                  exact_penetrance=True)
+        with quiet():
+            tt, nu, p_exact = welch_t_test(mean1=stats['c/a']['mean'], var1=stats['c/a']['var'], n1=n,
+                                           mean2=stats['c/b']['mean'], var2=stats['c/b']['var'], n2=n)
+            _, v_exact, _ = score_differential_genes(boring_t=None, **kw)
+            _, v_code, _ = score_differential_genes(boring_t=bt, **kw)
+        ctx.count(('boring-huge-nu', p_th), nontrivial=True)
+        if bool(v_exact[0]) and not bool(v_code[0]):
+            ctx.violation(f'gene with exact Holm-corrected Welch p = {float(p_exact[0])!r} < p_th = {p_th} is not recorded: '
+                          f't = {float(tt[0])!r} lies inside (-boring_t, boring_t), boring_t = {float(bt)!r}, nu = {float(nu[0])!r}',
+                          {'class': BORING_NU, 'p_th': p_th, 'boring_t': float(bt), 't': float(tt[0]), 'nu': float(nu[0]),
+                           'n_cells': n, 'mean1': float(stats['c/a']['mean'][0]), 'mean2': 8.0, 'var': 1.0,
+                           'exact_p': float(p_exact[0]), 'valid_with_exact_p': bool(v_exact[0]),
+                           'valid_as_the_worker_computes': bool(v_code[0])})
+
+
+def totalisation_cases(ctx):
+    """the inputs excluded by pair_wf and 1 <= n_processors are exactly where Python raises (the model is total
+    there: c11_ragged_pair_is_totalised, c11_zero_workers_is_totalised)."""
+    from cell_type_mapper.diff_exp.scores import score_differential_genes
+    stats = {'c/a': {'n_cells': 3, 'mean': np.array([8.0, 8.0]), 'var': np.array([1.0, 1.0]), 'ge1': np.array([3, 3])},
+             'c/b': {'n_cells': 3, 'mean': np.array([0.0, 0.0, 1.0]), 'var': np.array([1.0, 1.0, 1.0]), 'ge1': np.array([0, 0, 0])}}
+    raised = None
+    try:
+        with quiet():
+            score_differential_genes(node_1='c/a', node_2='c/b', precomputed_stats=stats, p_th=0.01)
+    except ValueError as e:
+        raised = 'ValueError'
+    except Exception as e:      # any other refusal is a refusal too, but say which
+        raised = type(e).__name__
+    ctx.count(('ragged', raised), nontrivial=True)
+    if raised is None:
+        ctx.violation('score_differential_genes accepted per-gene arrays of different lengths (pair_wf is assumed to be '
+                      'enforced by numpy)', {'class': 'corr:Penetrance.pair_wf', 'stats': 'lengths 2 and 3'}, no_input=True)
+    try:
+        n_pairs, n_processors = 100, 0
+        min(1000000, n_pairs // (2 * n_processors))          # markers.py:320, the expression itself
+        ctx.violation('n_pairs // (2*0) did not raise', {'class': 'corr:Penetrance.n_per_of'}, no_input=True)
+    except ZeroDivisionError:
+        ctx.count(('zero-workers', 'ZeroDivisionError'), nontrivial=True)
+
+
 def ctx_rank(genes, g):
     """order-preserving integer names for genes; unknown names get ranks beyond the known ones."""
     allg = sorted(set(genes) | {'nope1', 'nope2'})
@@ -1058,8 +1401,12 @@ def run(ctx):
                 'the thresholds, floors on the grid or within 2^-16..2^-20 of the threshold; _get_validity_mask on binary16 '
                 'distances.  non-trivial = >=3 genes with ties (Holm), mixed accept/reject (penetrance, mask)')
     ctx.assumptions += [
-        'raw Welch p-values, q1/qdiff/log2-fold scores and means are model INPUTS taken from the implementation\'s own '
-        'routines (welch_t_test, pij_from_stats, q_score_from_pij, read_precomputed_stats)',
+        'sections A-E: raw Welch p-values, q1/qdiff/log2-fold scores and means are model INPUTS taken from the '
+        'implementation\'s own routines; section F (welch_cases) computes them in the model from the summary statistics '
+        '(values multiples of 1/4, cluster sizes 0, 1, 2, ..., unions of leaves) with scipy.stats.t.cdf as a per-gene oracle',
+        'premises of c11_boring_t_sound (end_lo, end_hi, monotone on [-boring_t, boring_t]) and of c11_sound_exact_welch '
+        '(exact p of a skipped gene >= p_th) are evaluated numerically on every (t, nu) that occurs and for p_th in '
+        '[1e-11, 0.0455] x nu in [0.1, 1e6]; they fail for nu above a few million (known finding, boring_huge_nu_case)',
         'threshold settings: every setting with each strict threshold above its floor, including floors within '
         '2^-16..2^-20 of the threshold (the settings of the repaired finding F8; no distance between threshold and floor '
         'is assumed any more)',
@@ -1078,6 +1425,11 @@ def run(ctx):
     validity_mask_cases(ctx)
     sdg_cases(ctx)
     e2e_cases(ctx)
+    welch_cases(ctx)
+    boring_premise_cases(ctx)
+    boring_huge_nu_case(ctx)
+    totalisation_cases(ctx)
+    ctx.extra['boring_premises_checked'] = dict(PREMISES_CHECKED)
     ctx.extra['welch_p_values_checked_against_reference'] = WELCH_CHECKED[0]
     for w in WELCH_ISSUES:
         w['class'] = 'c11-raw-p-value-is-not-the-welch-p-value'
